@@ -28,7 +28,8 @@ def campaign(tier, seed):
         if st.fresh():
             return st.load()
         t0 = time.time()
-    res = {"records": [], "states": 0, "transitions": 0, "traces": 0, "samples": [], "relevant": {}, "detail": {"campaigns": {}}}
+    res = {"records": [], "states": 0, "transitions": 0, "traces": 0, "samples": [], "samples_by_prop": {}, "relevant": {},
+           "detail": {"campaigns": {}}}
     for camp, prop in CAMPS.items():
         maxops = (2 if camp == "build" else 3) if tier == "quick" else (2 if camp == "build" else 4)
         sub = simple_campaign("content_" + camp, tier, seed, "MC_Content",
@@ -40,6 +41,7 @@ def campaign(tier, seed):
         res["transitions"] += sub["transitions"]
         res["traces"] += sub["traces"]
         res["samples"] += sub["samples"][:1]
+        res["samples_by_prop"][prop] = sub["samples"][1:3]
         res["relevant"][prop] = sub["detail"]["generated_cases"]
         res["detail"]["campaigns"][camp] = {"programs": sub["detail"]["generated_cases"], "MaxOps": maxops, "wall_s": sub["wall_s"]}
     res["wall_s"] = sum(c["wall_s"] for c in res["detail"]["campaigns"].values())
